@@ -7,7 +7,7 @@ Tie (engine E1): the constructor's region graph, masks, pad masks, argsort buffe
 run on the RECORDED permutations; `forward` on complete rows and NaN patterns and `mpe` rows against
 the model evaluated at exact rationals; `sample` by a Hoeffding bound against the (tied) exact law;
 Gaussian leaves through density-oracle tables and quadrature marginal-consistency identities."""
-import itertools, json, math, os, time
+import itertools, math, json, math, os, time
 import numpy as np
 from . import common as C
 
@@ -236,7 +236,7 @@ def direct_oracle(cfg, rs, tier, n_tests, want_sampling=True):
     marginal consistency, mpe/sample shape + evidence."""
     import torch
     n = cfg.n; m = cfg.m
-    stats = dict(mass=0, marg=0, mpe=0, sample_rows=0, gof=0, state_dict_twins=0, half_leaf_models=0)
+    stats = dict(mass=0, marg=0, mpe=0, sample_rows=0, gof=0, state_dict_twins=0, half_leaf_models=0, gauss_sample_moments=0)
     with torch.no_grad():
         ll0 = m(torch.full((1, n), float("nan")))
     if not np.all(np.abs(ll0.numpy()) < 1e-4):
@@ -314,6 +314,33 @@ def direct_oracle(cfg, rs, tier, n_tests, want_sampling=True):
     stats["state_dict_twins"] += 1
     if bad:
         return bad, stats
+    # Gaussian leaves with scales other than one: the samples' per-feature mean and variance are those of the model's own
+    # one-dimensional marginals (quadrature of exp(log-likelihood) with every other entry missing)
+    if cfg.kind != "bern":
+        from deeprob.spn.models.ratspn import GaussianRatSpn
+        torch.manual_seed(cfg.seed + 23)
+        gm = GaussianRatSpn(cfg.n, out_classes=cfg.classes, rg_depth=cfg.d, rg_repetitions=cfg.reps, rg_batch=cfg.batch,
+                            rg_sum=cfg.sums, random_state=np.random.RandomState(cfg.seed + 5), optimize_scale=True)
+        with torch.no_grad():
+            gm.base_layer.scale.copy_(torch.tensor(rs.uniform(0.4, 1.6, size=tuple(gm.base_layer.scale.shape)), dtype=torch.float32))
+            gm.base_layer.loc.copy_(torch.tensor(rs.uniform(-1.5, 1.5, size=tuple(gm.base_layer.loc.shape)), dtype=torch.float32))
+        gm.eval()
+        NS = 30000
+        torch.manual_seed(cfg.seed + 29)
+        with torch.no_grad():
+            sg = gm.sample(NS, y=torch.zeros(NS, dtype=torch.long)).double().numpy()
+        xs = np.linspace(-12, 12, 4801)
+        for v in range(n):
+            t = torch.full((len(xs), n), float("nan")); t[:, v] = torch.tensor(xs, dtype=torch.float32)
+            with torch.no_grad():
+                dens = np.exp(gm(t).double().numpy()[:, 0])
+            w = dens * (xs[1] - xs[0])
+            mean = float((w * xs).sum()); var = float((w * (xs - mean) ** 2).sum())
+            sm, sv = float(sg[:, v].mean()), float(sg[:, v].var())
+            stats["gauss_sample_moments"] += 1
+            if abs(sm - mean) > 6 * math.sqrt(var / NS) + 1e-2 or abs(sv - var) > 0.1 * var + 1e-2:
+                return dict(what="Gaussian RAT-SPN with learned scales: samples do not have the mean / variance of the model's marginal",
+                            feature=v, model_mean=mean, model_variance=var, sample_mean=sm, sample_variance=sv, draws=NS), stats
     # sample
     N = 2000
     gof = want_sampling and cfg.kind == "bern" and n <= 6
@@ -463,7 +490,7 @@ def main(tier, seed, replay=None):
     n_gof = sum(c.classes for c in cfgs if c.kind == "bern" and c.n <= 6)
     dist = dict(features={}, depth={}, padded=0, kinds={}, nan_cells={}, exhaustive_configs=0)
     built = []
-    oracle_stats = dict(mass=0, marg=0, mpe=0, sample_rows=0, gof=0, state_dict_twins=0, half_leaf_models=0)
+    oracle_stats = dict(mass=0, marg=0, mpe=0, sample_rows=0, gof=0, state_dict_twins=0, half_leaf_models=0, gauss_sample_moments=0)
     n_viol = 0
     for cfg in cfgs:
         try:
